@@ -80,6 +80,13 @@ class C08(F.Spec):
 
     def cases(self, rng, tier):
         n = 200 if tier == "quick" else 2500
+        # witness of the repaired zero-stamp defect (ac4d248): the reversal arrives at the microsecond the counter reads 0
+        for k, boot in enumerate([4293467296, 4293467296 - 10, 4293467296 - 20, 4293467296 - 10010]):
+            yield F.Case("zero-stamp-%d" % k, ["boot %d" % boot, "board rs1", "motor 0 100 1000 1000", "init",
+                                                "rstimes 0 5000 2000 800 3", "rspos 0 10100 10100", "rslog 1",
+                                                "msg 110 0100000000000000000100000000000000", "adv 1500",
+                                                "msg 110 0100000000000000000232000000000000", "adv 1500"],
+                         {"tags": ["board:rs1", "wrap:1", "witness:zero-stamp"], "board": "rs1"})
         for i in range(n):
             board, boot, ops = gen_rs_scenario(rng, tier)
             yield F.Case("gen%d-%s" % (i, board), ops, {"tags": ["board:" + board, "wrap:%d" % (boot > W - 40000000)],
